@@ -124,6 +124,9 @@ func (w *Workspace) BuildPkgs(extra []string, patterns ...string) (map[string]st
 	if err == nil {
 		return fails, out, nil
 	}
+	if toolchainFailure(out) {
+		return nil, out, fmt.Errorf("the Go toolchain failed underneath the build (build cache removed while building?): %s", firstLines(out, 6))
+	}
 	parseDiag(out, fails)
 	if len(fails) == 0 {
 		return nil, out, fmt.Errorf("go build failed without package diagnostics: %v\n%s", err, out)
@@ -140,6 +143,9 @@ func (w *Workspace) VetPkgs(patterns ...string) (map[string]string, string, erro
 	fails := map[string]string{}
 	if err == nil {
 		return fails, out, nil
+	}
+	if toolchainFailure(out) {
+		return nil, out, fmt.Errorf("the Go toolchain failed underneath go vet: %s", firstLines(out, 6))
 	}
 	parseDiag(out, fails)
 	if len(fails) == 0 {
@@ -192,4 +198,22 @@ func (w *Workspace) SortedDirs() []string {
 	}
 	sort.Strings(ds)
 	return ds
+}
+
+// toolchainFailure: the build failed in the toolchain itself (its build cache removed under a running
+// build, a standard-library package that cannot be imported, the linker unable to open its inputs),
+// not in the code being built. Same test as chk.ToolchainFailure.
+func toolchainFailure(out string) bool {
+	if strings.Contains(out, "/.cache/go-build/") || strings.Contains(out, "cannot open file") {
+		return true
+	}
+	return strings.Contains(out, "could not import") && strings.Contains(out, "no such file or directory")
+}
+
+func firstLines(s string, n int) string {
+	l := strings.SplitN(s, "\n", n+1)
+	if len(l) > n {
+		l = l[:n]
+	}
+	return strings.Join(l, "\n")
 }
